@@ -13,3 +13,10 @@ Definition ConcSetting (H : bytes -> bytes) (cmp : bytes -> bytes -> comparison)
   /\ sorted lex_cmp cas0
   /\ (forall h c, In (h, c) cas0 -> H c = h)
   /\ (forall a b, In a (allc thr0 cas0) -> In b (allc thr0 cas0) -> H a = H b -> a = b).
+
+(* the fault parameters of the concurrent model (theories/Conc.v): [bad h] = the canonical path
+   of hash h is obstructed (unlink / rename onto / read of it fail with an I/O error), [ckbad] =
+   every checkpoint fails.  NoFaults = none of this happens.  Most concurrent theorems hold for
+   ARBITRARY bad / ckbad; the few that need a fault-free run say so with this hypothesis. *)
+Definition NoFaults (bad : bytes -> bool) (ckbad : bool) : Prop :=
+  (forall h, bad h = false) /\ ckbad = false.
